@@ -54,6 +54,48 @@ impl Divan {
     pub(crate) fn verif_bench_options(&self) -> &BenchOptions<'static> {
         &self.bench_options
     }
+
+    /// The runner's scalar settings, one `key=value` token per field.
+    pub(crate) fn verif_config(&self) -> String {
+        let action = match self.action {
+            Action::Bench => "bench",
+            Action::Test => "test",
+            Action::List => "list",
+            Action::ListTerse => "list-terse",
+        };
+        let timer = match self.timer {
+            TimerKind::Os => "os",
+            TimerKind::Tsc => "tsc",
+        };
+        let sort = match self.sorting_attr {
+            SortingAttr::Kind => "kind",
+            SortingAttr::Name => "name",
+            SortingAttr::Location => "location",
+        };
+        let color = match self.color {
+            ColorChoice::Auto => "auto",
+            ColorChoice::Always => "always",
+            ColorChoice::Never => "never",
+        };
+        let bytes = match self.bytes_format {
+            BytesFormat::Decimal => "decimal",
+            BytesFormat::Binary => "binary",
+        };
+        let ignored = match self.run_ignored {
+            RunIgnored::No => "no",
+            RunIgnored::Yes => "yes",
+            RunIgnored::Only => "only",
+        };
+        format!(
+            "action={action} timer={timer} sort={sort} reverse={} color={color} bytes={bytes} ignored={ignored}",
+            self.reverse_sort as u8,
+        )
+    }
+
+    /// Whether the runner's filters select `path`.
+    pub(crate) fn verif_filter_is_match(&self, path: &str) -> bool {
+        self.filters.is_match(path)
+    }
 }
 
 impl fmt::Debug for Divan {
